@@ -183,7 +183,7 @@ impl Engine for VcTimeout {
             for tests in 1..=3usize {
                 for slow in std::iter::once(None).chain((0..tests).map(Some)) {
                     for per_test_ms in [None, Some(400u64), Some(3000)] {
-                        for (total_ms, via_flag) in [(None, false), (Some(1000u64), false), (Some(1000), true)] {
+                        for (total_ms, via_flag) in [(None, false), (Some(2000u64), false), (Some(2000), true)] {
                             if cram && (per_test_ms.is_some() || (total_ms.is_some() && !via_flag)) {
                                 continue; // cram: document limit from the command line only
                             }
@@ -203,7 +203,7 @@ impl Engine for VcTimeout {
                             // the document limit elapses while the slow test case is still waiting (`wait` longer than the limit):
                             // the command then starts with no time left and has to time out at once
                             if !cram && slow.is_some() && total_ms.is_some() && per_test_ms != Some(400) {
-                                real.push(TimeoutCase::Real { tests, slow, per_test_ms, total_ms, via_flag, cram, wait_ms: Some(2000), stubborn: false, closes_streams: false });
+                                real.push(TimeoutCase::Real { tests, slow, per_test_ms, total_ms, via_flag, cram, wait_ms: Some(3000), stubborn: false, closes_streams: false });
                             }
                         }
                     }
@@ -227,7 +227,7 @@ impl Engine for VcTimeout {
     }
     fn bound(&self, tier: Tier) -> String {
         format!(
-            "(a) virtual clock: every document of 1..3 test cases over duration {{1,5}} x per-test timeout {{absent,2,8}}{} x document limit {{absent->900,0=unlimited,3,7,12}} through the real StatefulExecutor::execute_all with a fake Runner honouring the timeout it is handed; (b) real time: {} replays through `scrut test -r json` (fast = true, slow = sleep 30 - also from a shell that ignores SIGTERM/SIGINT/SIGHUP and after closing stdout and stderr -, per-test limit 400 ms / 3 s, document limit 1 s by front-matter or --timeout-seconds, Markdown and Cram, slow test in every position)",
+            "(a) virtual clock: every document of 1..3 test cases over duration {{1,5}} x per-test timeout {{absent,2,8}}{} x document limit {{absent->900,0=unlimited,3,7,12}} through the real StatefulExecutor::execute_all with a fake Runner honouring the timeout it is handed; (b) real time: {} replays through `scrut test -r json` (fast = true, slow = sleep 30 - also from a shell that ignores SIGTERM/SIGINT/SIGHUP and after closing stdout and stderr -, per-test limit 400 ms / 3 s, document limit 2 s by front-matter or --timeout-seconds, Markdown and Cram, slow test in every position)",
             if tier == Tier::Quick { " (and wait {absent,2} on documents of 1..2 test cases)" } else { " x wait {absent,2}" },
             if tier == Tier::Quick { "the 2-test" } else { "all 1..3-test" }
         )
